@@ -326,6 +326,38 @@ fn test_sd(c: &SdCase, cx: &mut Cx) -> CaseResult {
         ensure!(a.checked_div(0).is_none(), "checked_div-by-zero", "{ctx}: checked_div(0) is Some");
     }
     cmp_opt("checked_neg", a.checked_neg(), -an, &ctx)?;
+    // operator forms: the same exact arithmetic; they panic exactly when the checked form
+    // reports overflow (documented)
+    {
+        use std::panic::{catch_unwind, AssertUnwindSafe};
+        let in_range = |v: i128| (SD_MIN..=SD_MAX).contains(&v);
+        let quiet = |f: &mut dyn FnMut() -> SignedDuration| -> Option<SignedDuration> { crate::engine::guard("op", AssertUnwindSafe(|| f())).ok() };
+        let _ = catch_unwind(|| ());
+        let ops: [(&str, i128, Option<SignedDuration>); 7] = [
+            ("a + b", an + bn, quiet(&mut || a + b)),
+            ("a - b", an - bn, quiet(&mut || a - b)),
+            ("a += b", an + bn, quiet(&mut || { let mut x = a; x += b; x })),
+            ("a -= b", an - bn, quiet(&mut || { let mut x = a; x -= b; x })),
+            ("-a", -an, quiet(&mut || -a)),
+            ("a * k", an * c.k as i128, quiet(&mut || a * c.k)),
+            ("a *= k", an * c.k as i128, quiet(&mut || { let mut x = a; x *= c.k; x })),
+        ];
+        for (name, want, got) in ops {
+            match got {
+                Some(v) => ensure!(in_range(want) && v.as_nanos() == want, format!("operator-wrong:{name}"), "{ctx}: `{name}` = {v:?} ({}), exact value {want}", v.as_nanos()),
+                None => ensure!(!in_range(want), format!("operator-panics-in-range:{name}"), "{ctx}: `{name}` panics although the exact value {want} is representable"),
+            }
+        }
+        if c.k != 0 {
+            let want = an / c.k as i128;
+            for (name, got) in [("a / k", quiet(&mut || a / c.k)), ("a /= k", quiet(&mut || { let mut x = a; x /= c.k; x }))] {
+                match got {
+                    Some(v) => ensure!(in_range(want) && v.as_nanos() == want, format!("operator-wrong:{name}"), "{ctx}: `{name}` = {v:?}, exact value {want}"),
+                    None => ensure!(!in_range(want), format!("operator-panics-in-range:{name}"), "{ctx}: `{name}` panics although the exact value {want} is representable"),
+                }
+            }
+        }
+    }
     let clamp = |v: i128| v.clamp(SD_MIN, SD_MAX);
     ensure!(a.saturating_add(b).as_nanos() == clamp(an + bn), "saturating_add-wrong", "{ctx}: saturating_add = {:?}", a.saturating_add(b));
     ensure!(a.saturating_sub(b).as_nanos() == clamp(an - bn), "saturating_sub-wrong", "{ctx}: saturating_sub = {:?}", a.saturating_sub(b));
